@@ -1662,7 +1662,7 @@ class Fxp():
     def like(self, x):
         if isinstance(x, self.__class__):
             new_raw_val = self.val * 2**(x.n_frac - self.n_frac)
-            return  x.copy().set_val(new_raw_val, raw=True)
+            return  x.deepcopy().set_val(new_raw_val, raw=True)
         else:
             raise ValueError('`x` should be a Fxp object!')
 
